@@ -317,6 +317,16 @@ def run(ctx):
             "rows_with_leading_or_double_blank": 0}
     res["distribution"] = dist
     progs = [gen_program(rng) for _ in range(ctx.n(1200, 40000))]
+    # audit (wave 7): the witness streams of the two known findings (Examples C16_gap_after_empty_row_refuted /
+    # C16_blank_only_row_refuted in coq/props/C16.v) run against the real reader on EVERY run, not only when a random program hits
+    # the shape: judged and compared with the decoder model like every other program (expected: KNOWN-FINDING of that shape)
+    def fixed(lines, rows, buffers_max, tag):
+        return {"doubled": "False", "drop": False, "rows": rows, "buffers": 2, "buffers_max": buffers_max, "gap_sites": 1,
+                "stream": g.doc(lines), "events": None, "shapes": {"fixed_witness_" + tag: 1}, "final_mode": "roll2"}
+    progs.append(fixed([("00:00:01:00", ["9425", "94ad", "9470", "6162"]), ("00:00:02:00", ["9429", "9470", "8080"]),
+                        ("00:00:03:00", ["9425", "94ad", "9470", "e364"])], ["ab", "", "cd"], 2, "gap_after_empty_row"))
+    progs.append(fixed([("00:00:01:00", ["9426", "94ad", "9470", "6162"]), ("00:00:01:16", ["9426", "94ad", "2020", "2020"]),
+                        ("00:00:01:22", ["94ad", "9470", "e364"])], ["ab", "", "cd"], 3, "blank_only_row"))
     # options and histories: the `lang` option varies in every stream; a third of the programs are read by a reader
     # object that has already read other files (mostly rejected ones). The expectation does not depend on either.
     dist["lang"] = {}
